@@ -15,6 +15,10 @@ import (
 
 func init() {
 	register("crash", crashStream)
+	// finding C13-a seen from C14: the origin's body breaks off; writeBody still closes the writer (the truncated file is
+	// PUBLISHED: xattr set, renamed) and only then errCleanup deletes it: a crash in between leaves a truncated entry that
+	// the restarted cache serves as a hit (no size check when the stored response has a Content-Length)
+	register("kf.C13-a.crash", func(g *hx.Gen, id int) hx.Case { return crashCase("kf.C13-a.crash", id, 5+id%2, 1+(id/2)%2) })
 }
 
 var crashMu sync.Mutex
@@ -72,10 +76,13 @@ func versionOf(b []byte) int {
 //	kind 0 fresh fill, 1 revalidating 200 fill, 2 304 revalidation, 3 Vary: Origin fresh fill,
 //	4 Vary: Origin on revalidation (key change of an existing entry)
 func crashStream(g *hx.Gen, id int) hx.Case {
+	return crashCase("crash", id, id%5, 1+(id/5)%3)
+}
+
+// kinds 5, 6 (witness stream kf.C13-a.crash): fresh fill / revalidating 200 fill whose origin body breaks off mid-stream
+func crashCase(stream string, id int, kind int, nchunks int) hx.Case {
 	crashMu.Lock()
 	defer crashMu.Unlock()
-	kind := id % 5
-	nchunks := 1 + (id/5)%3
 	in := []string{hx.I(kind), hx.I(nchunks)}
 	impl := hx.Guard(func() []string {
 		rules, err := proxy.ParseRules([]byte(cacheRule), sysx.Logger)
@@ -98,7 +105,7 @@ func crashStream(g *hx.Gen, id int) hx.Case {
 			sizes = append(sizes, 5)
 		}
 		// preparation (no snapshots): kinds 1, 2, 4 start from a published v1 entry
-		if kind == 1 || kind == 2 || kind == 4 {
+		if kind == 1 || kind == 2 || kind == 4 || kind == 6 {
 			extra := [][2]string{{"ETag", "\"v1\""}}
 			live.Perf.Reset(crashOrigin(1, 200, extra, nil))
 			v := live.Do(crashReq(path, withOrigin), false)
@@ -134,6 +141,14 @@ func crashStream(g *hx.Gen, id int) hx.Case {
 			live.Perf.Reset(crashOrigin(1, 200, [][2]string{{"Vary", "Origin"}}, sizes))
 		case 4:
 			live.Perf.Reset(crashOrigin(2, 200, [][2]string{{"Vary", "Origin"}, {"ETag", "\"v2\""}}, sizes))
+		case 5, 6:
+			ver := kind - 4 // 1 for the fresh fill, 2 for the revalidating one
+			inner := crashOrigin(ver, 200, [][2]string{{"ETag", "\"v" + hx.I(ver) + "\""}}, sizes)
+			live.Perf.Reset(func(req *http.Request) *sysx.OriginResp {
+				r := inner(req)
+				r.ReadErrAt = len(r.Body) / 2
+				return r
+			})
 		}
 		v := live.Do(crashReq(path, withOrigin), false)
 		waitPublished(live)
@@ -149,7 +164,7 @@ func crashStream(g *hx.Gen, id int) hx.Case {
 		}
 		return out
 	})
-	return hx.Case{Stream: "crash", ID: id, In: in, Impl: impl}
+	return hx.Case{Stream: stream, ID: id, In: in, Impl: impl}
 }
 
 // probe serves a crash image with a fresh cache instance: GET twice; tokens per probe:
